@@ -1,9 +1,191 @@
 import KG.Base.Json
-/-! Driver entry points for property C03 (filled in by the C03 model). -/
-namespace KG.Driver.C03
-open Lean
+import KG.Spec.Endpoints
+/-!
+Driver entry points for C03 (endpoint selection); the C14 driver uses the decoders too.
 
-/-- `handle method args`: `none` when the method is unknown. -/
-def handle (_m : String) (_a : Json) : Option (Except String Json) := none
+`C03.run {ops:[…], impl:[…]?}` — every harness op is one model op followed by *quiescence*: the worker goroutines
+consume every pending token (`probeFire` on every endpoint that can fire, outcome from the op's `up` table), which is
+what the harness waits for on the real code.  The reply carries, per harness op, the model's output, the probes that
+fired, the whole observable state, and the verdict of the judge `KG.Spec.Endpoints.judgeTrace` on the model's own
+low-level trace and — when `impl` is given — on the trace observed from the implementation.
+-/
+namespace KG.Driver.C03
+open Lean KG KG.Model.Endpoints KG.Spec.Endpoints
+
+abbrev EName := KG.Model.Endpoints.Name
+
+structure HOp where
+  op : Op
+  up : List (EName × Bool)
+
+def decodeUp (j : Json) : Except String (List (EName × Bool)) :=
+  match J.optObj j "up" with
+  | none => pure []
+  | some u => do
+    (← u.getArr?).toList.mapM fun x => do pure (← J.getHex x "n", ← J.getBool x "h")
+
+def decodeServer (j : Json) : Except String Server := do
+  pure { endpoint := ← J.getHex j "ep", disabled := ← J.getBool j "dis" }
+
+def decodeNameLists (j : Json) (k : String) : Except String (List (List EName)) := do
+  (← J.getArr j k).toList.mapM fun p => do (← p.getArr?).toList.mapM J.asHex
+
+/-- `order` may be absent (planning run): the model then enumerates its own map -/
+def decodeOp (s : State) (j : Json) : Except String HOp := do
+  let up ← decodeUp j
+  let kind ← J.getStr j "op"
+  match kind with
+  | "sync" =>
+    let servers ← (← J.getArr j "servers").toList.mapM decodeServer
+    pure ⟨.sync servers (← decodeNameLists j "policies"), up⟩
+  | "status" => pure ⟨.updateStatus (← J.getHex j "n") (← J.getBool j "h"), up⟩
+  | "trigger" => pure ⟨.trigger (← J.getHex j "n"), up⟩
+  | "ensure" => pure ⟨.ensure (← J.getHex j "n"), up⟩
+  | "match" =>
+    let order ← match J.optObj j "order" with
+      | none => pure (s.eps.map (·.name))
+      | some _ => J.getHexList j "order"
+    pure ⟨.matchAttrs (← J.getNat j "policy") order, up⟩
+  | "pop" => pure ⟨.pop (← J.getNat j "picker"), up⟩
+  | _ => throw s!"unknown op {kind}"
+
+def strLt (a b : Str) : Bool := a.toHex < b.toHex
+
+def sortEps (eps : List EP) : List EP := (eps.toArray.qsort fun a b => strLt a.name b.name).toList
+
+def encodeEP (e : EP) : Json :=
+  J.obj [("n", J.hex e.name), ("gen", J.nat e.gen), ("dis", J.bool e.disabled), ("healthy", J.bool e.healthy),
+         ("uc", J.nat e.unhealthyCount), ("probing", J.bool e.probing), ("chan", J.nat (if e.chan then 1 else 0)),
+         ("blocked", J.nat e.blocked), ("probes", J.nat e.probes)]
+
+def encodeKey (k : Key) : Json := Json.arr (k.map fun p => J.obj [("n", J.hex p.1), ("gen", J.nat p.2)]).toArray
+
+def keyStr (k : Key) : String := String.intercalate "," (k.map fun p => p.1.toHex ++ ":" ++ toString p.2)
+
+def encodeLb (lb : List (Key × Nat)) : Json :=
+  let sorted := (lb.toArray.qsort fun a b => keyStr a.1 < keyStr b.1).toList
+  Json.arr (sorted.map fun p => J.obj [("key", encodeKey p.1), ("c", J.nat p.2)]).toArray
+
+def encodePop : PopOut → Json
+  | .picked n g => J.obj [("ok", J.obj [("n", J.hex n), ("gen", J.nat g)])]
+  | .noReady => J.obj [("err", Json.str "noready")]
+  | .panic => J.obj [("err", Json.str "panic")]
+
+def encodeOut : Out → Json
+  | .none => Json.null
+  | .fired n g => J.obj [("fired", J.obj [("n", J.hex n), ("gen", J.nat g)])]
+  | .notFired => J.obj [("notfired", Json.bool true)]
+  | .matched us => J.obj [("ok", J.hexList us)]
+  | .noRule => J.obj [("err", Json.str "norule")]
+  | .badOrder => J.obj [("err", Json.str "badorder")]
+  | .popped r => encodePop r
+  | .noPicker => J.obj [("err", Json.str "nopicker")]
+
+def decodePop (j : Json) : Except String PopOut :=
+  match J.optObj j "ok" with
+  | some o => do pure (.picked (← J.getHex o "n") (← J.getNat o "gen"))
+  | none => do
+    let e ← J.getStr j "err"
+    if e == "noready" then pure .noReady else throw s!"implementation answered {e}"
+
+/-- the implementation's output of one harness op, in the vocabulary of `Out` -/
+def decodeImplOut (op : Op) (j : Json) : Except String Out :=
+  match op with
+  | .matchAttrs _ _ =>
+    match J.optObj j "ok" with
+    | some _ => do pure (.matched (← J.getHexList j "ok"))
+    | none => do
+      let e ← J.getStr j "err"
+      if e == "norule" then pure .noRule else throw s!"implementation answered {e}"
+  | .pop _ =>
+    match j.getObjVal? "err" with
+    | .ok (Json.str "nopicker") => pure .noPicker
+    | _ => do pure (.popped (← decodePop j))
+  | _ => pure .none
+
+/-- quiescence: every endpoint that can fire fires (sorted by name, repeatedly; `fuel` bounds the loop: an endpoint holds
+    at most `1 + blocked` tokens) -/
+def quiesce (up : List (EName × Bool)) : Nat → State → List (Op × Out) → State × List (Op × Out)
+  | 0, s, acc => (s, acc.reverse)
+  | fuel + 1, s, acc =>
+    match (sortEps s.eps).find? EP.canFire with
+    | none => (s, acc.reverse)
+    | some e =>
+      let h := (up.lookup e.name).getD false
+      let op := Op.probeFire e.name h
+      let r := step s op
+      quiesce up fuel r.1 ((op, r.2) :: acc)
+
+def fuelOf (s : State) : Nat := s.eps.foldl (fun n e => n + 2 + e.blocked) 1
+
+def encodeFired (up : List (EName × Bool)) (tr : List (Op × Out)) : Json :=
+  Json.arr (tr.filterMap fun p =>
+    match p.2 with
+    | .fired n g => some (J.obj [("n", J.hex n), ("gen", J.nat g), ("h", J.bool ((up.lookup n).getD false))])
+    | _ => none).toArray
+
+structure Acc where
+  s : State
+  low : List (Op × Out)        -- the model's low-level trace so far (reversed chunks appended)
+  implLow : List (Op × Out)    -- the implementation's low-level trace so far
+  implIdx : List Nat           -- for every low-level impl step, the harness op it belongs to
+  outs : List Json
+
+def decodeImplFired (j : Json) : Except String (List (Op × Out)) := do
+  (← J.getArr j "fired").toList.mapM fun x => do
+    let n ← J.getHex x "n"
+    pure (Op.probeFire n (← J.getBool x "h"), Out.fired n (← J.getNat x "gen"))
+
+def doRun (a : Json) : Except String Json := do
+  let ops ← J.getArr a "ops"
+  let impl : Option (Array Json) := match J.optObj a "impl" with
+    | some i => i.getArr?.toOption
+    | none => none
+  let mut acc : Acc := { s := init, low := [], implLow := [], implIdx := [], outs := [] }
+  let mut idx := 0
+  for j in ops do
+    let h ← decodeOp acc.s j
+    let r := step acc.s h.op
+    let q := quiesce h.up (fuelOf r.1) r.1 []
+    let s' := q.1
+    let out := J.obj [("out", encodeOut r.2), ("fired", encodeFired h.up q.2), ("eps", Json.arr ((sortEps s'.eps).map encodeEP).toArray),
+                      ("lb", encodeLb s'.lb)]
+    let mut implLow := acc.implLow
+    let mut implIdx := acc.implIdx
+    match impl with
+    | some arr =>
+      match arr[idx]? with
+      | some ij =>
+        let io ← decodeImplOut h.op (← J.getObj ij "out")
+        let fired ← decodeImplFired ij
+        implLow := implLow ++ ((h.op, io) :: fired)
+        implIdx := implIdx ++ List.replicate (fired.length + 1) idx
+      | none => pure ()
+    | none => pure ()
+    acc := { s := s', low := acc.low ++ ((h.op, r.2) :: q.2), implLow := implLow, implIdx := implIdx, outs := acc.outs ++ [out] }
+    idx := idx + 1
+  let modelOK := judgeTrace Abs.init acc.low
+  let implBad : Json := match impl with
+    | none => Json.null
+    | some _ =>
+      match firstBad Abs.init acc.implLow 0 with
+      | none => Json.null
+      | some i =>
+        let at_ := (acc.implIdx[i]?).getD 0
+        let what := match acc.implLow[i]? with
+          | some (.probeFire _ _, _) => "probe"
+          | some (.pop _, .popped (.picked _ _)) => "pick-unsound"
+          | some (.pop _, .popped .noReady) => "pick-incomplete"
+          | some (.pop _, _) => "pop"
+          | some (.matchAttrs _ _, _) => "match"
+          | _ => "other"
+        J.obj [("at", J.nat at_), ("what", Json.str what)]
+  -- the abstract view after the whole implementation trace (for reports)
+  pure <| J.obj [("steps", Json.arr acc.outs.toArray), ("model_judge", J.bool modelOK), ("impl_bad", implBad)]
+
+def handle (m : String) (a : Json) : Option (Except String Json) :=
+  match m with
+  | "run" => some (doRun a)
+  | _ => none
 
 end KG.Driver.C03
